@@ -84,13 +84,23 @@ namespace cnl {
             return floor_int(x, static_cast<Source>(static_cast<Destination>(x)));
         }
 
+        // rounds on the exact fractional part left over by truncation toward zero; unlike floor(x),
+        // trunc(x) is representable in Destination whenever the rounded result is
+        // (floor(-0.25) is not an unsigned value, floor(-32768.1) is not an int16_t value)
+        [[nodiscard]] static constexpr auto round(Source x, Destination x_whole)
+        {
+            return ((x - static_cast<Source>(x_whole)) >= static_cast<Source>(.5L))
+                         ? static_cast<Destination>(x_whole + 1)
+                 : ((x - static_cast<Source>(x_whole)) < static_cast<Source>(-.5L))
+                         ? static_cast<Destination>(x_whole - 1)
+                         : x_whole;
+        }
+
     public:
         [[nodiscard]] constexpr auto operator()(Source const& from) const
         {
             return std::numeric_limits<Destination>::is_integer && std::is_floating_point<Source>::value
-                         ? static_cast<Destination>(
-                                 static_cast<Destination>(floor(from))
-                                 + static_cast<Destination>((from - floor(from)) >= static_cast<Source>(.5L)))
+                         ? round(from, static_cast<Destination>(from))
                          : static_cast<Destination>(from);
         }
     };
